@@ -821,6 +821,13 @@ func runC20(c *Ctx) {
 					switch y := u.(type) {
 					case *ssa.Defer:
 					case *ssa.DebugRef:
+					case *ssa.Call:
+						// a plain cancel() after the worker's Exec has returned is harmless since D50: nothing in the worker
+						// waits on that context any more (C20-R3 forbids a case on it in the hold); during or before Exec it
+						// would cut the worker short
+						if y.Call.Value != ssa.Value(e2) || !instrDominates(ci, y) {
+							onlyDeferred = false
+						}
 					case *ssa.Store:
 						// spilled into a cell: its loads must be deferred calls too
 						for _, u2 := range referrers(y.Addr) {
@@ -838,7 +845,7 @@ func runC20(c *Ctx) {
 						onlyDeferred = false
 					}
 				}
-				c.check(onlyDeferred, "worker-ctx-live:"+which, instrPos(ci), "the worker's context is cancelled only when the worker returns (deferred)", "the "+which+" worker cancels its context before it returns: the always_standby wait on that context's Done() falls through at once and the secondary's answer is released although the primary is still within the threshold")
+				c.check(onlyDeferred, "worker-ctx-live:"+which, instrPos(ci), "the worker's context is cancelled only after its Exec returned (deferred, or called behind the Exec)", "the "+which+" worker's context can be cancelled before its Exec has returned: the worker is cut short and reports a failure although it was within its time")
 			}
 		}
 	}
